@@ -325,7 +325,11 @@ def main():
         "wall_s": round(time.time() - t0, 2),
         "violations": reported + (1 if exit_code and not reported else 0),
     }
-    json.dump(ev, open(os.path.join(VERIF, "evidence", pid + ".json"), "w"), indent=1, default=str)
+    if a.no_proofs:
+        # development runs never overwrite the committed evidence (their `discharged` would be 0)
+        json.dump(ev, open(os.path.join(VERIF, "build", "evidence_dev_" + pid + ".json"), "w"), indent=1, default=str)
+    else:
+        json.dump(ev, open(os.path.join(VERIF, "evidence", pid + ".json"), "w"), indent=1, default=str)
     sys.exit(exit_code)
 
 if __name__ == "__main__":
